@@ -138,9 +138,6 @@ theorem waiting_sem (cx : Cx) (fuel : Nat) (sL : Nat) : ∀ (w : List (Option BP
 
 /-! ### the blueprints of the cases -/
 
-def caseName (sw name : String) : String :=
-  if sw == Gen.op_switch_scenario && name == Gen.op_case_value then Gen.op_case_scenario else name
-
 /-- the blueprints step 1 made for the (non-default) cases -/
 def BpsOK (sw : String) : Cases → List BP → Prop
   | .nil, _ => True
